@@ -297,6 +297,79 @@ def always_returns(stmt):
     return False
 
 
+def check_whole_name_match(chk, prog, u):
+    """N4: a long option is selected by its whole name.  Every bounded comparison strn(case)cmp(NAME, WORD, n) of a table
+    entry's long name with the word decides a match only together with the end of the other string at n:
+      n = strlen(NAME)            -> WORD[n] is tested to be '=' or the terminator (the name part of the word ends there), or
+      n measured on the WORD      -> NAME[n] is tested to be the terminator (the table name ends there too);
+    an unbounded str(case)cmp compares whole names by itself.  Otherwise a word selects an option it is merely a prefix of
+    (or that is a prefix of it)."""
+    n = 0
+    for f in u.functions.values():
+        if f.body is None:
+            continue
+        defs = {}
+        for x in walk(f.body):
+            if x.get("k") == "assign" and x.get("op") == "=":
+                l = X.strip(x["ch"][0])
+                if l.get("k") == "ref" and l.get("rk") == "local":
+                    defs.setdefault(l["d"], []).append(x["ch"][1])
+            elif x.get("k") == "decl":
+                for dcl in x.get("decls", ()):
+                    if dcl.get("init") is not None:
+                        defs.setdefault(dcl["d"], []).append(dcl["init"])
+
+        def is_name(e):
+            return any(y.get("k") == "member" and y.get("n") == "long_opt" for y in walk(e))
+
+        def length_of(e, depth=0):
+            """'name' / 'word' if e is a length measured on the table name / on something else, else None"""
+            e = X.strip(e)
+            if e is None or depth > 3:
+                return None
+            if e.get("k") == "ref" and e.get("rk") == "local":
+                ds = defs.get(e["d"], [])
+                kinds = {length_of(d_, depth + 1) for d_ in ds}
+                return kinds.pop() if len(kinds) == 1 else None
+            if e.get("k") == "call" and X.callee_name(e) in ("strlen", "__builtin_strlen") and e["ch"][1:]:
+                return "name" if is_name(e["ch"][1]) else "word"
+            if e.get("k") == "call" and X.callee_name(e) in ("strcspn", "__builtin_strcspn") and e["ch"][1:]:
+                return "name" if is_name(e["ch"][1]) else "word"
+            if e.get("k") == "bin" and e.get("op") == "-" and e.get("tw") and all((X.strip(c_) or {}).get("tp") for c_ in e["ch"]):
+                return "word"           # a pointer difference inside the word
+            return None
+
+        def same_len(a, b):
+            return canon(f, a) == canon(f, b)
+        for c in X.calls_in(f.body):
+            cn = X.callee_name(c) or ""
+            if cn not in ("strncasecmp", "strncmp", "__builtin_strncmp", "__builtin_strncasecmp") or len(c["ch"]) < 4:
+                continue
+            a1, a2, an = c["ch"][1], c["ch"][2], c["ch"][3]
+            if not (is_name(a1) or is_name(a2)):
+                continue
+            name_e, word_e = (a1, a2) if is_name(a1) else (a2, a1)
+            n += 1
+            kind = length_of(an)
+            # tests of the byte at index n of either string anywhere in the enclosing condition / function
+            ends_word = ends_name = False
+            for x in walk(f.body):
+                if x.get("k") == "index" and same_len(x["ch"][1], an):
+                    if is_name(x["ch"][0]):
+                        ends_name = True
+                    elif canon(f, x["ch"][0]) == canon(f, word_e):
+                        ends_word = True
+            ok = (kind == "name" and ends_word) or (kind == "word" and ends_name)
+            chk.ob("N4", f.name, "whole-name-match:" + canon(f, c)[:40], ok, loc=f.loc(c),
+                   detail="%s matches a long option with %s bounded by %s, and never tests that %s ends at that length: a word selects "
+                          "an option whose name merely begins with it (or that it merely begins with) - `--verb` sets --verbose, an exact "
+                          "`--scrollbar` is taken for --scrollbar-type" % (
+                              f.name, cn, "the table name's length" if kind == "name" else ("the word's length" if kind == "word" else "a length of unknown origin"),
+                              "the word's name part" if kind == "name" else "the table name"),
+                   proof="bounded by %s and the other string is tested to end there" % ("strlen(name)" if kind == "name" else "the word's name length"))
+    return n
+
+
 def check_long_lookup_words(chk, prog, u):
     """N3: the word handed to the long-option lookup has had both hyphens consumed.  May-dataflow over the letter cursor: the
     fact "the byte at p is a hyphen" is established by a successful test `*p == '-'` and killed when p moves; a call
@@ -378,6 +451,7 @@ def run(tier="quick"):
     for rid, txt in (("M1", "boolean handler only ORs / AND-NOTs its mask"), ("M2", "target stores and handler calls are under SHOULD_PARSE"),
                      ("M3", "every way round the main loop advances"), ("M6", "per-word state (long/equal flags, value pointer) does not survive an iteration"), ("N1", "letter cursor never passes the terminator"), ("N2", "a word removed from argv is not read again before the index moves on"),
                      ("N3", "the long-option lookup is handed the word with both hyphens consumed"),
+                     ("N4", "a long option is selected by its whole name, not by a prefix"),
                      ("M5", "argv compaction stays inside argv and terminates it"), ("B1", "the argument-list handler writes only inside the list it allocated")):
         chk.rule(rid, txt)
     prog = facts.extract(only=["options.c"])
@@ -673,6 +747,7 @@ def run(tier="quick"):
                proof="no argv[E] read with E == i is feasible in %s" % h.name)
     chk.count("calls_after_word_removal", n_n2, floor=1)
     chk.count("long_option_lookups", check_long_lookup_words(chk, prog, u), floor=2)
+    chk.count("long_name_comparisons", check_whole_name_match(chk, prog, u), floor=1)
     # B1 argument-list handler: every store into the word list it allocates is within the allocation (CAP, strict: a bound that
     # cannot be established is reported), and what it hands to the string functions is a string
     from ..cap import Cap
